@@ -15,7 +15,7 @@ VIEW view1
 INVARIANT Forest
 INVARIANT GenIncreasing
 INVARIANT WinnerIsMax
-INVARIANT FlagsAgreeModuloAgeing
+INVARIANT FlagsAgree
 INVARIANT PruneSafe
 INVARIANT ReloadPreserves
 INVARIANT WinningBody
